@@ -381,6 +381,20 @@ pub fn generate(seed: u64, n: usize, thorough: bool, corpus: Option<&str>) -> Ve
             cases.push(run(src, vec!["stream:tiny-milp".into()], &mut pool));
         }
     }
+    // ---- inputs that END right after a line break (empty / blank sources, every seed program cut after each of its line
+    //      breaks, constructs whose grammar swallows newlines left open): the parser's error glue must render them - deterministic
+    {
+        let mut k = 0usize;
+        let mut srcs: Vec<String> = vec!["".into(), "\n".into(), "   \n".into(), "\n\n\n".into(), "\t\n  \n".into(), " ".into(),
+            "min 1\ns.t.\n    x >= sum(i in 0..2) {\n".into(), "min 1\ns.t.\n    x >= max {\n".into(), "min 1\ns.t.\n    x >= 1\nwhere\n    let A = [1, 2,\n".into(),
+            "min 1\ns.t.\n    x >= 1\nwhere\n    let G = Graph {\n".into(), "min 1\ns.t.\n    x >= len([\n".into(), "min 1\ns.t.\n    x >= 1\nwhere\n    let G = Graph { A -> [\n".into(),
+            "min 1\ns.t.\n    x >= (1 +\n".into(), "min 1\ns.t.\n    x_{\n".into(), "min 1\ns.t.\n    x >= 1 for i in\n".into(), "min 1\ns.t.\n    x >= 1\ndefine\n    x as IntegerRange(\n".into(),
+            "min\n".into(), "min 1\ns.t.\n".into(), "min 1\ns.t.\n    x >= 1\nwhere\n".into(), "min 1\ns.t.\n    x >= 1\ndefine\n".into(), "min 1\ns.t.\n    x >= 1\nwhere\n    let a =\n".into()];
+        for p in SEED_PROGRAMS.iter() {
+            for (i, ch) in p.char_indices() { if ch == '\n' { srcs.push(p[..=i].to_string()); } }
+        }
+        for src in srcs { cases.push(run(src, vec!["stream:ends-after-line-break".into(), format!("ends-after-line-break:{}", k)], &mut pool)); k += 1; }
+    }
     // ---- tableau start: standard forms with at least as many private positive columns as rows that do NOT cover every row
     //      (one `<=` row owning several otherwise unused unbounded variables, next to equality / pinned rows owning none):
     //      no basis can be read off, the tableau solver must fall back (two phases) - deterministic block, the same on every seed
